@@ -293,6 +293,7 @@ def roundtrip(maker, compress, protocol, target, d, rename):
     except Exception:  # noqa
         return [], 0    # not picklable under this protocol by Python itself: outside the property's domain
     try:
+      with core.time_limit(120):
         if kind == "path":
             joblib.dump(obj, path, compress=compress, protocol=protocol)
             data = open(path, "rb").read()
@@ -304,6 +305,8 @@ def roundtrip(maker, compress, protocol, target, d, rename):
             b = io.BytesIO()
             joblib.dump(obj, b, compress=compress, protocol=protocol)
             data = b.getvalue()
+    except core.Watchdog:
+        return [("dump-does-not-terminate", "dump did not return within 120 s")], 0
     except Exception as e:  # noqa
         return [("dump-raises:%s" % type(e).__name__, "dump raised %s: %s" % (type(e).__name__, str(e)[:200]))], 0
     nload = 0
@@ -321,7 +324,12 @@ def roundtrip(maker, compress, protocol, target, d, rename):
     for how, fn in loads:
         nload += 1
         try:
-            got = fn()
+            with core.time_limit(60):
+                got = fn()
+        except core.Watchdog:
+            fails.append(("load-does-not-terminate|via-%s" % ("renamed" if how.startswith("renamed") else how),
+                          "load (%s) did not return within 60 s" % how))
+            continue
         except Exception as e:  # noqa
             fails.append(("load-raises:%s|via-%s" % (type(e).__name__, how.split(".")[0] if how.startswith("renamed") else how),
                           "load (%s) raised %s: %s" % (how, type(e).__name__, str(e)[:200])))
